@@ -204,6 +204,10 @@ def setup_profile():
             if rt not in ["absolute", "relative"]:
                 print("Please choose 'absolute' or 'relative'.")
                 continue
+            if rt == "relative":
+                # relative to the contact point
+                # (see :func:`nanite.indent.Indentation.fit_model`)
+                rt = "relative cp"
             pf["range_type"] = rt
         break
 
